@@ -21,7 +21,8 @@ import lf_common as L
 
 THEOREMS = ["C15_safe", "C15_add_safe", "C15_commit_safe", "C15_add_reports", "C15_commit_reports",
             "C15_add_done", "C15_commit_done", "C15_history", "C15_truncating_add_refuted",
-            "C15_truncating_commit_refuted", "C15_truncating_crash_refuted", "C15_example"]
+            "C15_truncating_commit_refuted", "C15_truncating_crash_refuted", "C15_example",
+            "C15_concurrent_safe", "C15_concurrent_shared_name_refuted", "C15_concurrent_example"]
 
 NKEYS = 5
 OTHER_NAMES = ["README.txt", "notes.json.bak", "0" * 64 + ".json.999-1.tmp"]
@@ -801,6 +802,477 @@ def run_sdk(case):
         L.rm_scratch(d)
 
 
+# ---------------------------------------------------------------- concurrent writers (one process, several threads)
+
+CONC_EFFECTS = ["encode", "open", "write", "close", "replace"]
+
+
+class Token:
+    """deterministic interleaving of writer threads at effect granularity: `sched` names, effect by effect, the
+    writer that performs the next effect (entries of finished writers are skipped; once the list is used up the
+    unfinished writers run in index order).  At most one writer runs at any time."""
+
+    def __init__(self, n, sched, timeout=6.0):
+        import threading
+        self.cv = threading.Condition()
+        self.sched = list(sched)
+        self.done = [False] * n
+        self.grant = [False] * n
+        self.cur = None
+        self.timeout = timeout
+
+    def _pick(self):
+        nxt = None
+        while self.sched and nxt is None:
+            w = self.sched.pop(0)
+            if not self.done[w]:
+                nxt = w
+        if nxt is None:
+            for w in range(len(self.done)):
+                if not self.done[w]:
+                    nxt = w
+                    break
+        self.cur = nxt
+        if nxt is not None:
+            self.grant[nxt] = True
+        self.cv.notify_all()
+
+    def start(self):
+        with self.cv:
+            self._pick()
+
+    def _wait(self, w):
+        while self.cur != w:
+            if not self.cv.wait(self.timeout):
+                raise L.Hang()
+
+    def begin(self, w):
+        with self.cv:
+            self._wait(w)
+
+    def gate(self, w):
+        with self.cv:
+            if not self.grant[w]:
+                self._pick()
+                self._wait(w)
+            self.grant[w] = False
+
+    def finish(self, w):
+        with self.cv:
+            self.done[w] = True
+            if self.cur == w:
+                self._pick()
+
+
+class ConcHarness:
+    """fault injection for several writer threads of one process; every effect of a registered writer thread is a
+    scheduling point (Token) and is hit by that writer's own fault list"""
+
+    def __init__(self, case, dirpath, hash2key, wfd):
+        import threading
+        self.case = case
+        self.dir = dirpath
+        self.hash2key = hash2key
+        self.wfd = wfd
+        self.tl = threading.local()
+        self.tok = Token(len(case["writers"]), case["sched"])
+        self.trace = []
+        self.pos = [0] * len(case["writers"])
+        self.hit = [False] * len(case["writers"])
+        self.open_files = []
+        self.report = {"pid": os.getpid()}
+        self.active = True
+
+    def fname(self, path):
+        path = os.fspath(path)
+        d, base = os.path.split(path)
+        if os.path.realpath(d) != os.path.realpath(self.dir):
+            return None
+        for h, k in self.hash2key.items():
+            if base == h:
+                return [1, k]
+            if base.startswith(h + ".") and base.endswith(".tmp"):
+                return [2, k]
+        return [3, 99]
+
+    def send(self):
+        self.report["trace"] = self.trace
+        os.write(self.wfd, json.dumps(self.report).encode() + b"\n")
+
+    def effect(self, e, cleanup=False, fp=None, data=None):
+        w = getattr(self.tl, "w", None)
+        if w is None or not self.active:
+            return ["n"]
+        self.tok.gate(w)
+        wr = self.case["writers"][w]
+        if cleanup:
+            fk = wr["fc"]
+        else:
+            fk = wr["F"][self.pos[w]] if self.pos[w] < len(wr["F"]) else ["n"]
+            self.pos[w] += 1
+        if fk[0] != "n":
+            self.hit[w] = True
+        if fk[0] == "c":
+            if fp is not None and data is not None:
+                fp.real.write(data if fk[1] is None else data[:fk[1]])
+            for f in list(self.open_files):
+                try:
+                    f.real.flush()
+                except Exception:
+                    pass
+            self.report["outcome"] = [2]
+            self.trace.append([w] + e + [2])
+            self.send()
+            os._exit(17)
+        self.trace.append([w] + e + [1 if fk[0] == "r" else 0])
+        return fk
+
+
+class ConcFile:
+    def __init__(self, H, real, name):
+        self.H, self.real, self.name, self.dead = H, real, name, False
+        H.open_files.append(self)
+
+    def _finish(self):
+        self.dead = True
+        if self in self.H.open_files:
+            self.H.open_files.remove(self)
+        try:
+            self.real.close()
+        except OSError:
+            pass
+
+    def write(self, data):
+        fk = self.H.effect([4] + self.name, fp=self, data=data)
+        if fk[0] == "r":
+            self.real.write(data if fk[2] is None else data[:fk[2]])
+            self._finish()
+            raise EXC[fk[1]]()
+        return self.real.write(data)
+
+    def close(self):
+        if self.dead:
+            return
+        fk = self.H.effect([5] + self.name)
+        self._finish()
+        if fk[0] == "r":
+            raise EXC[fk[1]]()
+
+    def __enter__(self):
+        return self
+
+    def __exit__(self, *a):
+        self.close()
+        return False
+
+    def __getattr__(self, n):
+        return getattr(self.real, n)
+
+
+def install_conc(H):
+    import builtins
+    saved = {"open": builtins.open, "replace": os.replace, "remove": os.remove, "dumps": json.dumps,
+             "rename": os.rename, "unlink": os.unlink}
+
+    def p_open(file, mode="r", *a, **k):
+        nm = H.fname(file) if isinstance(file, (str, bytes, os.PathLike)) else None
+        if nm is None or not any(c in mode for c in "wax+") or getattr(H.tl, "w", None) is None:
+            return saved["open"](file, mode, *a, **k)
+        fk = H.effect([3] + nm)
+        if fk[0] == "r":
+            raise EXC[fk[1]]()
+        return ConcFile(H, saved["open"](file, mode, *a, **k), nm)
+
+    def p_replace(a, b, **k):
+        na, nb = H.fname(a), H.fname(b)
+        if na is not None and nb is not None:
+            fk = H.effect([6] + na + nb)
+            if fk[0] == "r":
+                raise EXC[fk[1]]()
+        return saved["replace"](a, b, **k)
+
+    def p_rename(a, b, **k):
+        na, nb = H.fname(a), H.fname(b)
+        if na is not None and nb is not None:
+            fk = H.effect([6] + na + nb)
+            if fk[0] == "r":
+                raise EXC[fk[1]]()
+        return saved["rename"](a, b, **k)
+
+    def p_remove(path, **k):
+        nm = H.fname(path)
+        if nm is not None:
+            fk = H.effect([7] + nm, cleanup=True)
+            if fk[0] == "r":
+                raise EXC[fk[1]]()
+        return saved["remove"](path, **k)
+
+    def p_dumps(obj, *a, **k):
+        if k.get("cls") is not None:
+            fk = H.effect([2])
+            if fk[0] == "r":
+                raise EXC[fk[1]]()
+        return saved["dumps"](obj, *a, **k)
+    builtins.open = p_open
+    os.replace = p_replace
+    os.rename = p_rename
+    os.remove = p_remove
+    os.unlink = p_remove
+    json.dumps = p_dumps
+
+    def uninstall():
+        builtins.open = saved["open"]
+        os.replace = saved["replace"]
+        os.rename = saved["rename"]
+        os.remove = saved["remove"]
+        os.unlink = saved["unlink"]
+        json.dumps = saved["dumps"]
+    return uninstall
+
+
+def run_conc(case):
+    """several threads of one process commit the same stored (shared, cached) object, interleaved effect by effect as
+    case["sched"] says, each with its own fault list; afterwards the directory, a fresh store and the store instance
+    holding the object are asked.  Returns dict(fail=(sig, msg) or None, rep=child report, final=...)."""
+    import select
+    import signal
+    import threading
+    from basyx.aas.backend import local_file
+    from basyx.aas.adapter.json import json_deserialization
+    idlist = ids_of(case)
+    hash2key = {L.doc_name(i): k for k, i in enumerate(idlist)}
+    d = L.scratch_dir("c15c")
+    pid = None
+    try:
+        store = local_file.LocalFileObjectStore(d)
+        table = []
+
+        def tok(obj):
+            c = L.canon(obj)
+            if c not in table:
+                table.append(c)
+            return table.index(c)
+        for (k, kind, v) in case["others"]:
+            o = L.make_object(kind, idlist[k], v)
+            store.add(o)
+            tok(o)
+        key = case["key"]
+        kind0, v0 = case["pre"]
+        obj = L.make_object(kind0, idlist[key], v0)
+        store.add(obj)
+        old_tok = tok(obj)
+        saved_attrs = (obj.id_short, obj.category)
+        new_toks = []
+        for wr in case["writers"]:
+            obj.id_short, obj.category = "V{}".format(wr["v"]), "cat{}".format(wr["v"])
+            new_toks.append(tok(obj))
+        obj.id_short, obj.category = saved_attrs
+        for (n, size) in case["extra"]:
+            with open(os.path.join(d, OTHER_NAMES[n]), "wb") as f:
+                f.write(b"#" * size)
+        before = snapshot(d)
+        docname = L.doc_name(idlist[key])
+        rfd, wfd = os.pipe()
+        sys.stdout.flush()
+        sys.stderr.flush()
+        pid = os.fork()
+        if pid == 0:
+            try:
+                os.close(rfd)
+                H = ConcHarness(case, d, hash2key, wfd)
+                uninstall = install_conc(H)
+                outcomes = [[7]] * len(case["writers"])
+                excs = [None] * len(case["writers"])
+
+                def body(w):
+                    H.tl.w = w
+                    try:
+                        H.tok.begin(w)
+                        v = case["writers"][w]["v"]
+                        obj.id_short, obj.category = "V{}".format(v), "cat{}".format(v)
+                        obj.commit()
+                        outcomes[w] = [0]
+                    except L.Hang:
+                        outcomes[w] = [7]
+                    except BaseException as e:   # noqa
+                        outcomes[w] = [1, L.exc_code(e)]
+                        excs[w] = "{}: {}".format(type(e).__name__, e)[:200]
+                    finally:
+                        H.tl.w = None
+                        H.tok.finish(w)
+                ths = [threading.Thread(target=body, args=(w,), daemon=True) for w in range(len(case["writers"]))]
+                for t in ths:
+                    t.start()
+                H.tok.start()
+                for t in ths:
+                    t.join(4 * CALL_LIMIT)
+                H.active = False
+                uninstall()
+                H.report["outcome"] = [0]
+                H.report["writers"] = outcomes
+                H.report["excs"] = excs
+                H.report["hit"] = H.hit
+                H.report["same"] = answers(store, idlist, table)
+                H.send()
+            except BaseException as e:   # noqa
+                try:
+                    os.write(wfd, json.dumps({"child_error": repr(e)}).encode() + b"\n")
+                except Exception:
+                    pass
+            os._exit(0)
+        os.close(wfd)
+        data = b""
+        import time
+        t_end = time.time() + 20 * CALL_LIMIT
+        while b"\n" not in data:
+            left = t_end - time.time()
+            if left <= 0 or not select.select([rfd], [], [], left)[0]:
+                break
+            b = os.read(rfd, 65536)
+            if not b:
+                break
+            data += b
+        os.close(rfd)
+        try:
+            os.kill(pid, signal.SIGKILL)
+        except ProcessLookupError:
+            pass
+        os.waitpid(pid, 0)
+        pid = None
+        if b"\n" not in data:
+            rep = {"outcome": [7], "trace": [], "writers": [], "hit": [], "killed": True}
+        else:
+            rep = json.loads(data.split(b"\n", 1)[0].decode())
+        if "child_error" in rep:
+            raise RuntimeError("child failed: {}".format(rep))
+        after = snapshot(d)
+        fresh = answers(local_file.LocalFileObjectStore(d), idlist, table)
+
+        def classify(raw):
+            try:
+                o = json.loads(raw.decode("utf-8"), cls=json_deserialization.AASFromJsonDecoder)["data"]
+                c = L.canon(o)
+                return [1, table.index(c)] if c in table else [1, 98]
+            except Exception:
+                return [2, len(raw)]
+        fail = None
+        crashed = rep["outcome"] == [2]
+
+        def flag(what, msg):
+            nonlocal fail
+            if fail is None:
+                kinds = {fk[0] for wr in case["writers"] for fk in wr["F"] + [wr["fc"]]}
+                kindf = "process-dies" if crashed else ("exception-injected" if "r" in kinds else "none")
+                fail = ("C15:concurrent-commit:{}:{}".format(kindf, what), msg)
+        for n, raw in before.items():
+            if n != docname and after.get(n) != raw:
+                flag("other-file-changed", "file {} changed or vanished".format(n))
+        for n in after:
+            if n not in before and not n.endswith(".tmp"):
+                flag("unexpected-file", "unexpected file {} appeared".format(n))
+        final = None
+        if docname not in after:
+            flag("document-lost", "the document of the committed id vanished")
+        else:
+            final = classify(after[docname])
+            if after[docname] != before[docname] and final not in [[1, t] for t in new_toks]:
+                flag("document-corrupt", "the document of the committed id is neither the old version nor the complete "
+                                         "version of one of the writers ({} bytes, classified {})".format(
+                                             len(after[docname]), final))
+        ndocs = sum(1 for n in after if n in hash2key)
+        for how, ans in (("fresh store", fresh),) + ((("store instance holding the object", rep["same"]),)
+                                                     if "same" in rep else ()):
+            if ans["hang"]:
+                flag("store-hangs", "{}: {} did not return".format(how, ans["hang"][0]))
+                continue
+            if ans["len"] != [ndocs]:
+                flag("len", "{}: len() = {} but {} documents".format(how, ans["len"], ndocs))
+            if ans["iter"][0] != 1 or len(ans["iter"]) != 1 + 2 * ndocs:
+                flag("iter", "{}: iterating fails or yields a wrong number of objects: {}".format(how, ans["iter"]))
+            for k, row in enumerate(ans["per"]):
+                present = L.doc_name(idlist[k]) in after
+                if row[0] != (1 if present else 0):
+                    flag("contains", "{}: contains() of key {} = {}".format(how, k, row[0]))
+                if present and row[1] != 1:
+                    flag("get", "{}: get_identifiable of stored key {} fails: {}".format(how, k, row[1:]))
+                if not present and row[1:] != [2]:
+                    flag("get-missing", "{}: get_identifiable of absent key {} does not raise KeyError".format(how, k))
+        if rep["outcome"] == [7]:
+            flag("write-does-not-return", "the committing threads did not finish")
+        elif not crashed:
+            for w, oc in enumerate(rep["writers"]):
+                if oc == [7]:
+                    flag("write-does-not-return", "commit of writer {} did not return".format(w))
+                elif rep["hit"][w] and oc[0] != 1:
+                    flag("fault-not-reported", "writer {}: a fault was injected but commit returned".format(w))
+                elif not rep["hit"][w] and oc[0] != 0:
+                    flag("unfaulted-commit-failed", "writer {}: no fault was injected into this commit, yet it raised "
+                                                    "{}".format(w, rep["excs"][w]))
+            if any(oc == [0] for oc in rep["writers"]) and final not in [[1, t] for t in new_toks]:
+                flag("commit-returned-not-stored", "a commit returned but the document holds no writer's version")
+        return {"fail": fail, "rep": rep, "final": final, "old_tok": old_tok, "new_toks": new_toks}
+    finally:
+        if pid is not None:
+            try:
+                os.kill(pid, signal.SIGKILL)
+                os.waitpid(pid, 0)
+            except Exception:
+                pass
+        L.rm_scratch(d)
+
+
+def conc_fault_variants(pos, size):
+    """faults for one writer at effect position pos (None: no fault)"""
+    if pos is None:
+        return [([], ["n"])]
+    pre = [["n"]] * pos
+    e = CONC_EFFECTS[pos]
+    fls = [0, max(1, size // 2), None] if e in ("write", "close") else [None]
+    res = []
+    for fl in fls:
+        res.append((pre + [["c", fl]], ["n"]))
+        res.append((pre + [["r", 4 if e == "encode" else 1, fl]], ["n"]))
+    res.append((pre + [["r", 4 if e == "encode" else 1, None]], ["r", 1, None]))
+    return res
+
+
+def conc_core_cases():
+    """two writers of one document: writer 0 performs a effects, writer 1 performs b effects, writer 0 continues to
+    its end, writer 1 continues - for every a, b; writer 1 without fault and with every kind of fault at the effect
+    it resumes with (the one that follows the switch)"""
+    base = {"conc": True, "op": "commit", "key": 1, "ids": 0, "others": [(3, "sm_props", 1)], "extra": [(0, 3)],
+            "pre": ("sm_props", 2), "kind": "sm_props"}
+    size = payload_size("sm_props", ids_of(base)[1], 6)
+    n = len(CONC_EFFECTS)
+    res = []
+    for a in range(n + 1):
+        for b in range(1, n):
+            sched = [0] * a + [1] * b + [0] * (n - a + 2) + [1] * (n - b + 2)
+            for F, fc in conc_fault_variants(None, size) + conc_fault_variants(b, size):
+                res.append(dict(base, sched=sched, writers=[{"v": 6, "F": [], "fc": ["n"]}, {"v": 7, "F": F, "fc": fc}]))
+    return res
+
+
+def gen_random_conc(rng):
+    nw = rng.choice([2, 2, 3])
+    key = rng.randrange(NKEYS)
+    other_keys = rng.sample([k for k in range(NKEYS) if k != key], rng.choice([0, 1, 2, 3]))
+    kind = rng.choice(L.GOOD_KINDS)
+    case = {"conc": True, "op": "commit", "key": key, "ids": rng.randrange(len(L.IDS)),
+            "others": [(k, rng.choice(L.GOOD_KINDS), rng.randrange(5)) for k in sorted(other_keys)],
+            "extra": sorted(rng.sample([(0, 3), (1, 40), (2, 7)], rng.choice([0, 0, 1, 2]))),
+            "pre": (kind, rng.randrange(5)), "kind": kind}
+    size = payload_size(kind, ids_of(case)[key], 6)
+    writers = []
+    for w in range(nw):
+        pos = rng.choice([None, None] + list(range(len(CONC_EFFECTS))))
+        F, fc = rng.choice(conc_fault_variants(pos, size))
+        writers.append({"v": 5 + w, "F": F, "fc": fc})
+    case["writers"] = writers
+    case["sched"] = [rng.randrange(nw) for _ in range(rng.randrange(4, 8 * nw))]
+    return case
+
+
 # ---------------------------------------------------------------- model side
 
 def coq_fname(nm):
@@ -953,6 +1425,8 @@ def check_prefix_assumption(chk):
 def shrink(case, pred):
     cur = dict(case)
     for simpler in ({"others": []}, {"extra": []}, {"stale_tmp": None}, {"ids": 0}):
+        if any(k not in cur for k in simpler):
+            continue
         cand = dict(cur, **simpler)
         if cand != cur and pred(cand):
             cur = cand
@@ -981,9 +1455,18 @@ def run(chk):
             case["pre"] = tuple(case["pre"])
     import multiprocessing
     pool = multiprocessing.get_context("fork").Pool(8)   # cases are independent; results keep their order
+    conc_cases = conc_core_cases()
+    nconc_core = len(conc_cases)
+    for _ in range(80 if chk.tier == "quick" else 1500):
+        conc_cases.append(gen_random_conc(rng))
+    for case in conc_cases:
+        case["others"] = [tuple(o) for o in case["others"]]
+        case["extra"] = [tuple(o) for o in case["extra"]]
+        case["pre"] = tuple(case["pre"])
     try:
         # every SDK call has its own time limit inside run_sdk; this overall limit is the last line of defence
         results = pool.map_async(run_sdk, cases, chunksize=8).get(timeout=120 + len(cases) * 0.5)
+        conc_results = pool.map_async(run_conc, conc_cases, chunksize=4).get(timeout=120 + len(conc_cases) * 0.5)
     finally:
         pool.terminate()        # no worker is left behind whatever happened
         pool.join()
@@ -1020,6 +1503,28 @@ def run(chk):
         terms.append(coq_case(case, res))
         if len(chk.samples) < 4 and hit and len(case["others"]) >= 1:
             chk.samples.append({"case": case, "sdk_observation": res["obs"]})
+    # ---- concurrent writers: threads of one process committing the same object, interleaved effect by effect
+    for case, res in zip(conc_cases, conc_results):
+        faulted = any(fk[0] != "n" for wr in case["writers"] for fk in wr["F"])
+        chk.seen(case, nontrivial=True)
+        chk.count("op=concurrent-commit")
+        chk.count("concurrent-writers={}".format(len(case["writers"])))
+        chk.count("concurrent-fault=" + ("died" if res["rep"]["outcome"] == [2] else "raise" if faulted else "none"))
+        chk.count("concurrent-final=" + ("old" if res["final"] == [1, res["old_tok"]] else
+                                         "writer-version" if res["final"] in [[1, t] for t in res["new_toks"]] else "other"))
+        if res["fail"] and res["fail"][0] not in shrunk:
+            shrunk.add(res["fail"][0])
+            small = shrink(case, lambda c: run_conc(c)["fail"] is not None)
+            r2 = run_conc(small)
+            sig, msg = r2["fail"] or res["fail"]
+            chk.fail(sig, msg, {"case": small, "how": "tools/c15.py run_conc(case): fork; in the child the writer threads "
+                                                      "commit the same stored object, the k-th effect overall is performed "
+                                                      "by writer sched[k], faults per writer; then inspect directory, a "
+                                                      "fresh store and the instance holding the object",
+                                "trace_rows": "[writer, effect code, file..., 0 ok / 1 raised / 2 died]",
+                                "child_report": r2["rep"]})
+    chk.cov["concurrent_core_cases"] = nconc_core
+    chk.cov["concurrent_cases"] = len(conc_cases)
     bad, errs = common.run_mismatch_shards("C15", PRELUDE, terms, "check_case", shard=300)
     chk.traces = common.run_mismatch_shards.evaluated - len(bad)
     for e in errs:
@@ -1062,6 +1567,11 @@ def run(chk):
                            "ENOSPC, met by the SDK's own file layers); after every case the directory is re-opened by the "
                            "constructor, check_directory(create=False) and check_directory(create=True), every SDK call "
                            "under a time limit; "
+                           "concurrent writers: 2 threads of one process committing the same stored object, every split "
+                           "(writer 0 does a effects, writer 1 does b, writer 0 finishes, writer 1 finishes) x writer 1 "
+                           "un-faulted / raising / dying at the effect it resumes with, plus random 2-3 writer schedules "
+                           "and faults (document = old or one writer's complete version, un-faulted commits return, "
+                           "faulted ones report, fresh store and the instance holding the object answer); "
                            "then seeded random cases over 8 payload kinds (3 rejected by the serialiser), 16 identifier "
                            "shapes, 0-3 neighbours, foreign/stale files; non-trivial = a fault is injected or the "
                            "payload is rejected; distinct by full case description")
@@ -1076,6 +1586,12 @@ def replay(path):
         case["extra"] = [tuple(o) for o in case["extra"]]
         if case["pre"] is not None:
             case["pre"] = tuple(case["pre"])
+        if case.get("conc"):
+            res = run_conc(case)
+            print("child report:", json.dumps(res["rep"])[:2500])
+            print("final document:", res["final"], "old:", res["old_tok"], "writers:", res["new_toks"])
+            print("oracle:", res["fail"])
+            return 1 if res["fail"] else 0
         res = run_sdk(case)
         print("child report:", json.dumps(res["rep"])[:1500])
         print("observation:", res["obs"])
